@@ -53,6 +53,11 @@ CLAIMED = {
    "DESIGN.md §4 C18",
    "Trusted: the sink/pure classification table of standard-library packages, call-graph over-approximation (no reflect.Call / unsafe function pointers / linkname in the region – reflect.Call is itself a sink), injection-point list. Trace equality across engines is not decided.",
    "static: capability reachability (worklist over go/ssa with VTA∪CHA call resolution) + ownership rules on the default bindings"),
+ "C11": ("other",
+   "Sound static decision of the ownership clause for every pair of instances: a field-based may-alias analysis over all module functions shows that nothing reachable from the run-time region (instantiate, call engines, api.* method sets, WASI functions) writes memory owned by the objects that instances share by construction (decoded module graph, compiled-module objects, configuration values) or an alias of it, except three lazily initialised caches whose synchronisation is re-verified on every run; per-instance mutable containers are allocated per instantiation; no package-level variable is written at run time. A violation is a concrete channel between two unlinked instances. Isolation inside generated machine code is not decided.",
+   "DESIGN.md §4 C11",
+   "Trusted: alias abstraction (checker/core/alias.go), the per-instance/shared type split, exemption table (3 symbols, each re-verified: sync.Once-only, receiver mutex dominates writes, idempotent memo), stdlib functions do not retain arguments.",
+   "static: who-may-write over a field-based may-alias analysis (go/ssa, VTA∪CHA) restricted to the run-time call-graph region"),
 }
 
 NOT_APPLICABLE = {
